@@ -175,4 +175,53 @@ PROPS = {
             "known finding C08-F1: hosted Drop n with n >= |map| fires on_clear instead of per-entry on_remove; sequences in the decidable class has_whole_drop are excused for the hosted implementation only",
         ],
     ),
+    "C04": dict(
+        coq_targets=["Props/C04.vo"],
+        harness=[dict(pkg="h_agent", bin="c04", cases={"quick": 300, "thorough": 5000},
+                      checkers=["corr", "oracle"], timeout=2400)],
+        allowed_axioms=[],
+        trusted_base=[
+            "lanes and remotes are numbers; value / supply bodies are byte strings (possibly empty), map events are entries of the C02 queue model rendered as Recon on the wire and parsed back by the harness; Links is abstracted to the set of (lane, remote) pairs (its bookkeeping is C20's subject)",
+            "each remote's channel has room for everything: a WriteTask future completes when it is run; `remote speed' is where the write completions (Done) are placed in the operation sequence",
+            "the order in which unlink_all walks the links is a hash-map order: model and implementation are compared per remote and lane",
+            "hook: swimos_runtime feature `verif` WriteState wrapper over WriteTaskState (its operations one at a time) and re-exports of WriteTask, UplinkResponse, LaneData, RemoteSender",
+        ],
+        assumptions=[
+            "theorems cover the per-remote Uplinks structure under every order of pushes, special actions and writer returns (tasks justified by what lanes produced, one write at a time, special actions first and in order); the (remote, lane) link state machine over several remotes - linked/unlinked rounds, implicit links, lane-not-found, lane removal, unlink-all, remote removal - is checked on the real WriteTaskState by correspondence + an independent protocol oracle (partial)",
+            "a repeated link request on an already linked lane is answered by another linked frame: the oracle counts one linked per accepted link request (read as allowed by the WARP state machine)",
+            "not modelled: the read task (envelope routing, needs_flush), pruning of idle remotes, failures of a remote's channel, agent stop"
+        ],
+    ),
+    "C01": dict(
+        coq_targets=["Props/C01.vo"],
+        harness=[dict(pkg="h_agent", bin="c04", cases={"quick": 300, "thorough": 5000},
+                      checkers=["corr", "oracle"], timeout=2400)],
+        allowed_axioms=[],
+        trusted_base=[
+            "lanes and remotes are numbers; value / supply bodies are byte strings (possibly empty), map events are entries of the C02 queue model rendered as Recon on the wire and parsed back by the harness; Links is abstracted to the set of (lane, remote) pairs (its bookkeeping is C20's subject)",
+            "each remote's channel has room for everything: a WriteTask future completes when it is run; `remote speed' is where the write completions (Done) are placed in the operation sequence",
+            "the order in which unlink_all walks the links is a hash-map order: model and implementation are compared per remote and lane",
+            "hook: swimos_runtime feature `verif` WriteState wrapper over WriteTaskState (its operations one at a time) and re-exports of WriteTask, UplinkResponse, LaneData, RemoteSender",
+        ],
+        assumptions=[
+            "theorems cover the runtime side per remote (an event written for a value lane carries the lane's latest value, a newer value replaces the pending one); delivery of the last value to every linked remote at quiescence and several remotes are checked by correspondence + oracle on the real WriteTaskState (partial)",
+            "not modelled: the agent side of a value lane (ValueLane / ValueStore dirty flag, write_to_buffer, command decoding) and the task interleavings of the agent runtime"
+        ],
+    ),
+    "C03": dict(
+        coq_targets=["Props/C03.vo"],
+        harness=[dict(pkg="h_agent", bin="c04", cases={"quick": 300, "thorough": 5000},
+                      checkers=["corr", "oracle"], timeout=2400)],
+        allowed_axioms=[],
+        trusted_base=[
+            "lanes and remotes are numbers; value / supply bodies are byte strings (possibly empty), map events are entries of the C02 queue model rendered as Recon on the wire and parsed back by the harness; Links is abstracted to the set of (lane, remote) pairs (its bookkeeping is C20's subject)",
+            "each remote's channel has room for everything: a WriteTask future completes when it is run; `remote speed' is where the write completions (Done) are placed in the operation sequence",
+            "the order in which unlink_all walks the links is a hash-map order: model and implementation are compared per remote and lane",
+            "hook: swimos_runtime feature `verif` WriteState wrapper over WriteTaskState (its operations one at a time) and re-exports of WriteTask, UplinkResponse, LaneData, RemoteSender",
+        ],
+        assumptions=[
+            "theorems cover what the runtime writes for a sync answer (value: the pending value and the synced leave in one write, value first, or the synced alone; map: the whole queue then synced; everything written was produced by the lane); the consistency of the snapshot with the lane over several remotes, implicit links and concurrent syncs is checked by correspondence + oracle on the real WriteTaskState, and the lane side of a map sync by C02's lane harness (partial)",
+            "not modelled: the read task's handling of sync envelopes and the lane-side value sync"
+        ],
+    ),
 }
